@@ -192,3 +192,89 @@ fn c16_mask_unmask_inverse() {
 	kani::cover!(mask(c) < c, "mask wraps");
 	kani::cover!(mask(c) != c, "mask changes the value");
 }
+
+/// C16-O2: single-byte damage of a footer the writer produced, through the real entry point
+/// `read_footer(file, file_size)` on an in-memory file.  f = any footer whose two handles lie inside
+/// the file; the file's last 50 bytes = encode(f) with ONE byte changed to a different value.
+/// read_footer must be total and yield Err, or the same handles (damage fell into the zero padding),
+/// or handles that still lie INSIDE the file: read_bytes() allocates `handle.size` bytes
+/// unconditionally, so a handle the footer check lets through with a size beyond the file (one flipped
+/// varint continuation bit chains two varints: 2^42 for a table between 16 KiB and 2 MiB) aborts the
+/// process on allocation instead of reporting corruption.
+#[kani::proof]
+#[kani::unwind(12)]
+#[kani::stub(std::fmt::format, crate::verif_models::no_format)]
+fn c16_footer_single_byte_damage() {
+	const DATA: usize = 100; // bytes before the footer
+	const FILE: usize = DATA + TABLE_FULL_FOOTER_LENGTH;
+	let mo: usize = kani::any();
+	let ms: usize = kani::any();
+	let io: usize = kani::any();
+	let is: usize = kani::any();
+	let trailer = BLOCK_COMPRESS_LEN + BLOCK_CKSUM_LEN;
+	kani::assume(mo <= DATA && ms <= DATA && mo + ms + trailer <= DATA);
+	kani::assume(io <= DATA && is <= DATA && io + is + trailer <= DATA);
+	let f = Footer::new(BlockHandle::new(mo, ms), BlockHandle::new(io, is));
+	let mut buf = [0u8; TABLE_FULL_FOOTER_LENGTH];
+	f.encode(&mut buf);
+	let pos: usize = kani::any();
+	let val: u8 = kani::any();
+	kani::assume(pos < TABLE_FULL_FOOTER_LENGTH);
+	kani::assume(val != buf[pos]);
+	buf[pos] = val;
+	let mut image = [0u8; FILE];
+	image[DATA..].copy_from_slice(&buf);
+	let file: Arc<dyn File> = Arc::new(image.to_vec());
+	let r = read_footer(Arc::clone(&file), FILE);
+	#[cfg(verif_replay)]
+	println!("REPLAY footer damage: handles meta=({},{}) index=({},{}) byte {} := {:#x} -> {:?}", mo, ms, io, is, pos, val, r.as_ref().map(|g| (g.meta_index.clone(), g.index.clone())).map_err(|e| e.to_string()));
+	match &r {
+		Ok(g) => {
+			let same = g.meta_index.offset == mo && g.meta_index.size == ms && g.index.offset == io && g.index.size == is;
+			assert!(pos >= 2 && pos < TABLE_FOOTER_LENGTH, "damage to magic / format / checksum type accepted");
+			if !same {
+				let m_in = g.meta_index.size <= DATA && g.meta_index.offset <= DATA && g.meta_index.offset + g.meta_index.size + trailer <= DATA;
+				let i_in = g.index.size <= DATA && g.index.offset <= DATA && g.index.offset + g.index.size + trailer <= DATA;
+				assert!(m_in && i_in, "damaged footer accepted with a block handle outside the file (its size drives an unchecked allocation)");
+			}
+			kani::cover!(same, "damage in the padding: same handles");
+			kani::cover!(!same, "damage changed a handle but it still lies inside the file (left to the block checksum)");
+		}
+		Err(_) => {}
+	}
+	kani::cover!(r.is_err() && pos >= 2 && pos < 34, "damage inside a handle rejected");
+	core::mem::forget(r);
+	core::mem::forget(file);
+}
+
+/// C16-O2b (non-vacuity of the footer validation): an undamaged footer whose handles lie inside the
+/// file is accepted by read_footer with exactly those handles.
+#[kani::proof]
+#[kani::unwind(12)]
+#[kani::stub(std::fmt::format, crate::verif_models::no_format)]
+fn c16_read_footer_accepts_valid_footer() {
+	const DATA: usize = 100;
+	const FILE: usize = DATA + TABLE_FULL_FOOTER_LENGTH;
+	let mo: usize = kani::any();
+	let ms: usize = kani::any();
+	let io: usize = kani::any();
+	let is: usize = kani::any();
+	let trailer = BLOCK_COMPRESS_LEN + BLOCK_CKSUM_LEN;
+	kani::assume(mo <= DATA && ms <= DATA && mo + ms + trailer <= DATA);
+	kani::assume(io <= DATA && is <= DATA && io + is + trailer <= DATA);
+	let f = Footer::new(BlockHandle::new(mo, ms), BlockHandle::new(io, is));
+	let mut buf = [0u8; TABLE_FULL_FOOTER_LENGTH];
+	f.encode(&mut buf);
+	let mut image = [0u8; FILE];
+	image[DATA..].copy_from_slice(&buf);
+	let file: Arc<dyn File> = Arc::new(image.to_vec());
+	let r = read_footer(Arc::clone(&file), FILE);
+	match &r {
+		Ok(g) => assert!(g.meta_index.offset == mo && g.meta_index.size == ms && g.index.offset == io && g.index.size == is),
+		Err(_) => assert!(false, "valid footer rejected"),
+	}
+	kani::cover!(mo + ms + trailer == DATA, "meta index block ends exactly at the footer");
+	kani::cover!(is == 0, "empty index block");
+	core::mem::forget(r);
+	core::mem::forget(file);
+}
